@@ -134,12 +134,32 @@ Theorem c17_addrs_all_sound : forall cfg ops x r,
 Proof. exact addrs_all_sound_l. Qed.
 Print Assumptions c17_addrs_all_sound.
 
+(* Addrs(0), per local address: it is the concatenation, over the distinct
+   listen addresses, of that address's AddrsFor answer (each at most three and
+   sorted by c17_at_most_three_sorted).  _partial: on the implementation's
+   traces the monitor judges membership and total size of Addrs(0); the
+   per-local segmentation of Addrs(0) is tied to the code by the conformance
+   comparison of the exact list only. *)
+Theorem c17_addrs_all_per_local_partial : forall cfg ops, cap cfg = the_cap ->
+  let st := reach cfg ops in
+  addrs_all cfg st =
+    flat_map (fun la : laddr => map (fun x => (x, snd la)) (addrs_for cfg st la))
+             (dedup_laddr [] (listen cfg)) /\
+  (forall la, In la (dedup_laddr [] (listen cfg)) -> In la (listen cfg)) /\
+  (forall la, (length (addrs_for cfg st la) <= 3)%nat).
+Proof. exact addrs_all_per_local_l. Qed.
+Print Assumptions c17_addrs_all_per_local_partial.
+
 (* regenerated constants: both caps are the specification's three, and the
    host-level truncation in addrs_manager.appendObservedAddrs drops nothing *)
 Theorem c17_cap_is_three :
   maxExternalThinWaistAddrsPerLocalAddr = 3 /\ maxObservedAddrsPerListenAddr = 3.
 Proof. exact cap_is_three_l. Qed.
 Print Assumptions c17_cap_is_three.
+
+Theorem c17_default_threshold_positive : 1 <= ActivationThresh.
+Proof. exact default_threshold_positive_l. Qed.
+Print Assumptions c17_default_threshold_positive.
 
 Theorem c17_host_truncation_is_identity : forall cfg ops la, cap cfg = the_cap ->
   host_observed_for (Z.to_nat maxObservedAddrsPerListenAddr) cfg (reach cfg ops) la =
